@@ -404,10 +404,16 @@ def broadcast(axes_list, what="elementwise operation"):
     return tuple(reversed(out))
 
 
-def _result(axes, term):
-    if not axes and False:
-        return SymScalar(term)
-    return AArr(axes, term, Buf("result"))
+def _result(axes, term, dtype="float"):
+    return AArr(axes, term, Buf("result"), dtype=dtype)
+
+
+def common_dtype(ops) -> str:
+    """"int" only when every operand is an integer array or a Python int (NumPy's result type is then an integer type)"""
+    arrs = [o for o in ops if isinstance(o, AArr)]
+    if arrs and all(o.dtype == "int" for o in arrs) and all(isinstance(o, AArr) or (isinstance(o, int) and not isinstance(o, bool)) for o in ops):
+        return "int"
+    return "float"
 
 
 def elementwise(fname, *args):
@@ -430,7 +436,7 @@ def elementwise(fname, *args):
         t = t_fn(fname, *ts)
     if not any(isinstance(a, AArr) for a in args):
         return SymScalar(t)
-    return _result(axes, t)
+    return _result(axes, t, common_dtype(args) if fname in ("add", "sub", "mul", "neg", "abs", "sign", "minimum", "maximum") else "float")
 
 
 def with_out(result, out):
@@ -572,8 +578,8 @@ def einsum(spec: str, *ops):
     n_arr = sum(isinstance(o, AArr) for o in ops)
     if n_arr == 1 and not summed:
         base = next(o for o in ops if isinstance(o, AArr))
-        return AArr(out_axes, t, base.buf, view=True)      # a one-operand einsum without reduction is a view
-    return AArr(out_axes, t, Buf("einsum"))
+        return AArr(out_axes, t, base.buf, view=True, dtype=base.dtype)      # a one-operand einsum without reduction is a view
+    return AArr(out_axes, t, Buf("einsum"), dtype=common_dtype(ops))
 
 
 # ---- indexing --------------------------------------------------------------------------------------
@@ -786,8 +792,8 @@ def getitem(a: AArr, idx):
     axes, m, basic = index_plan(a, idx)
     t = subst(a.term, m) if m else a.term
     if basic:
-        return AArr(axes, t, a.buf, view=True)
-    return AArr(axes, t, Buf("advanced index"))
+        return AArr(axes, t, a.buf, view=True, dtype=a.dtype)
+    return AArr(axes, t, Buf("advanced index"), dtype=a.dtype)
 
 
 def setitem(a: AArr, idx, value):
@@ -840,7 +846,7 @@ def tile(a: AArr, reps):
             out.append(ax)          # a dimension with a single item used as multiple
         else:
             out.append(("#", axis_len(ax) * int(r)))   # a labelled axis repeated: labels are lost
-    return AArr(out, a.term, Buf("np.tile"))
+    return AArr(out, a.term, Buf("np.tile"), dtype=a.dtype)
 
 
 def reduce_all(a, fname="sum"):
@@ -870,12 +876,12 @@ def reduce_axis(a: AArr, axis, fname="sum"):
     ax = a.axes[k]
     rest = a.axes[:k] + a.axes[k + 1:]
     if ax == ONE:
-        return AArr(rest, a.term, Buf("reduce"))
+        return AArr(rest, a.term, Buf("reduce"), dtype=a.dtype)
     if not is_labelled(ax):
         raise ModelAbort("reduction over an unlabelled axis")
     if fname != "sum":
         raise ModelAbort(f"reduction {fname} along an axis")
-    return AArr(rest, t_sum({vkey(ax)}, a.term), Buf("reduce"))
+    return AArr(rest, t_sum({vkey(ax)}, a.term), Buf("reduce"), dtype=a.dtype)
 
 
 def cumsum(a: AArr, axis):
@@ -886,7 +892,7 @@ def cumsum(a: AArr, axis):
     ax = a.axes[k]
     if not is_labelled(ax):
         raise ModelAbort("cumsum over an unlabelled axis")
-    return AArr(a.axes, ("cumsum", tuple(ax), a.term), Buf("cumsum"))
+    return AArr(a.axes, ("cumsum", tuple(ax), a.term), Buf("cumsum"), dtype=a.dtype)
 
 
 def transpose(a: AArr, perm=None):
@@ -896,7 +902,7 @@ def transpose(a: AArr, perm=None):
     perm = [int(p) % a.ndim for p in perm]
     if sorted(perm) != list(range(a.ndim)):
         raise NumpyRaise("ValueError", "axes don't match array")
-    return AArr([a.axes[p] for p in perm], a.term, a.buf, view=True)
+    return AArr([a.axes[p] for p in perm], a.term, a.buf, view=True, dtype=a.dtype)
 
 
 def moveaxis(a: AArr, src, dst):
@@ -913,7 +919,7 @@ def expand_dims(a: AArr, axis):
     axs = sorted(int(x) % n_out for x in req)
     for k in axs:
         axes.insert(k, ONE)
-    return AArr(axes, a.term, a.buf, view=True)
+    return AArr(axes, a.term, a.buf, view=True, dtype=a.dtype)
 
 
 def same_entries(a: AArr, b: AArr) -> bool:
